@@ -192,7 +192,7 @@ pub struct Cpu {
     pub faults: u32,
     /// system bits of RFLAGS other than IF as last written (IOPL, NT, AC, ID ...)
     pub rflags_sys: u64,
-    /// logical time: instruction boundaries seen by the simulator
+    /// logical time: deterministic simulator events (see `tick`)
     pub boundary: u64,
     /// address of the instruction in the STI shadow (no interrupt is taken before it)
     pub shadow_rip: Option<u64>,
@@ -490,8 +490,12 @@ impl Cpu {
 
     /// An instruction boundary: the instruction at `rip` is about to execute.  Pending interrupts
     /// are taken here if IF=1 and the boundary is not the one in the STI shadow.
+    ///
+    /// Logical time (`boundary`) does NOT advance here: the number of natively executed
+    /// instructions between two simulator events depends on allocator state and code layout, so
+    /// time is counted in deterministic events only (`tick`: emulated instructions and explicit
+    /// harness yield points).  Delivery is still possible at every instruction boundary.
     pub fn at_boundary(&mut self, rip: u64) {
-        self.boundary += 1;
         if self.shadow_rip == Some(rip) {
             return;
         }
@@ -500,6 +504,11 @@ impl Cpu {
         if self.iflag && !self.hold_irqs {
             self.take_pending();
         }
+    }
+
+    /// one unit of logical time
+    pub fn tick(&mut self) {
+        self.boundary += 1;
     }
 
     fn take_pending(&mut self) {
